@@ -11,9 +11,10 @@ open Nri.NApi Nri.Result
 
 /-! Walk the updates in
     chain order keeping (i) which (target, field) pairs are taken and (ii) the resources of
-    every target; an update whose fields are all free is overlaid on its target and takes
-    them; one that hits a taken field contributes NO value (it must be marked ignore-failure
-    in a successful request) but the fields it named before the taken one stay taken — that
+    every target; an update whose fields are all free and pairwise distinct is overlaid on its
+    target and takes them; one that hits a taken field — taken by an earlier update or named
+    earlier in the same update — contributes NO value (it must be marked ignore-failure
+    in a successful request) but the fields it named before that one stay taken — that
     is what the real ledger does, and it decides whether a later ignore-failure update is
     dropped. -/
 structure Sim where
@@ -29,17 +30,26 @@ def Sim.put (s : Sim) (c : Cid) (r : Resources) : Sim :=
   if s.res.any (fun x => x.1 = c) then { s with res := s.res.map fun x => if x.1 = c then (c, r) else x }
   else { s with res := s.res ++ [(c, r)] }
 
+/-- What an update of target `c` naming `items` (in this order) manages to take: the longest
+    prefix of `items` none of which is taken — by an earlier update, or by an earlier item of
+    this same list (an item named twice collides with the update's own first mention, exactly
+    as the real ledger's second claim of it fails against the plugin's own earlier claim). -/
+def claimedPrefix (taken : List (Cid × Item)) (c : Cid) : List Item → List Item
+  | [] => []
+  | it :: rest => if taken.contains (c, it) then [] else it :: claimedPrefix ((c, it) :: taken) c rest
+
 def simUpdate (base : Cid → Resources) (s : Sim) (u : Update) : Sim :=
   let s := if s.res.any (fun x => x.1 = u.containerId) then s else s.put u.containerId (base u.containerId)
   match u.resources with
   | none => s
   | some r =>
     let items := Ledger.setsUpd u
-    let free := items.takeWhile fun it => !(s.taken.contains (u.containerId, it))
-    if free.length == items.length && items.eraseDups.length == items.length then
+    let free := claimedPrefix s.taken u.containerId items
+    -- all of them: every item is free and none is named twice
+    if free.length == items.length then
       { (s.put u.containerId (overlayRes (s.get base u.containerId) r r.pids)) with
           taken := s.taken ++ items.map fun it => (u.containerId, it) }
-    else { s with taken := s.taken ++ free.eraseDups.map fun it => (u.containerId, it) }
+    else { s with taken := s.taken ++ free.map fun it => (u.containerId, it) }
 
 /-- the walk over all update lists of a chain, in plugin order -/
 def walk (base : Cid → Resources) (chain : List (Plugin × Response)) : Sim :=
